@@ -1116,6 +1116,9 @@ impl<W: std::io::Write> FlacStreamWriter<W> {
             return Err(Error::SamplesNotDivisibleByChannels);
         } else if !(1..=8).contains(&channels) {
             return Err(Error::ExcessiveChannels);
+        } else if samples.is_empty() {
+            // a frame must hold at least one sample per channel
+            return Err(Error::InvalidBlockSize);
         }
 
         self.options.use_rice2 = u32::from(bits_per_sample) > 16;
